@@ -69,6 +69,11 @@ def run_sessions(args, fd):
             kinds.append(e.name)
             log.ev(k, e.name, out)
             bad = pool.guards_ok()
+            if bad is None:
+                for o in pool.objs:
+                    if "readonly" in o.tags and np.any(np.asarray(o.obj) != 0):
+                        bad = o      # a kernel wrote into a read-only buffer
+                        break
             if bad is not None:
                 emit(fd, "CANARY", idx, k, e.name, bad.desc)
                 os._exit(3)
